@@ -60,14 +60,18 @@ def _r(rng, lo, hi):
     return round(float(rng.uniform(lo, hi)), 3)
 
 
+_LIGHT = {"on": False}  # generator mode: no scan / cond / rejection samplers (nothing compiles per eager run)
+
+
 def _gen_site(rng, mode, first=False):
+    rej = 0.0 if _LIGHT["on"] else 0.4
     if first:
         dist = "normal"
     elif mode == "gen":
-        dist = str(rng.choice(GEN_DISTS, p=_norm([5, 1, 2, 1, 0.4, 1, 2, 2])))
+        dist = str(rng.choice(GEN_DISTS, p=_norm([5, 1, 2, 1, rej, 1, 2, 2])))
     else:
         names = list(DISTS)
-        w = [6, 1, 2, 1.5, 0.4, 0.4, 1, 1, 2, 2, 0.4]
+        w = [6, 1, 2, 1.5, rej, rej, 1, 1, 2, 2, rej]
         dist = str(rng.choice(names, p=_norm(w)))
     st = {"op": "site", "dist": dist, "a": _r(rng, 0.5, 1.5), "b": _r(rng, 0.7, 1.6)}
     kw = DISTS[dist][1]
@@ -95,7 +99,7 @@ def _gen_block(rng, mode, depth, budget, nmax=3):
         w = [5.0]
         if depth > 0 and budget["ctl"] > 0:
             ops += ["scan", "cond", "vmap"]
-            w += [1.6, 1.6, 1.6]
+            w += [0.0, 0.0, 2.4] if _LIGHT["on"] else [1.6, 1.6, 1.6]
             if mode == "gen":
                 ops.append("call")
                 w.append(1.2)
@@ -157,8 +161,16 @@ def _perturb(rng, block):
     return out
 
 
-def gen_program(rng, family, tier="quick"):
+def gen_program(rng, family, tier="quick", light=False):
     """family: plain | gfi | mixed | binder"""
+    _LIGHT["on"] = bool(light)
+    try:
+        return _gen_program(rng, family, tier)
+    finally:
+        _LIGHT["on"] = False
+
+
+def _gen_program(rng, family, tier):
     depth = 2 if tier == "quick" else 3
     sites = int(rng.integers(3, 8)) if tier == "quick" else int(rng.integers(3, 11))
     budget = {"sites": sites, "ctl": int(rng.integers(1, 3 if tier == "quick" else 4))}
